@@ -192,7 +192,9 @@ func CompleteResponse(id datatransfer.TransferID, isAccepted bool, isPaused bool
 
 // FromNet can read a network stream to deserialize a GraphSyncMessage
 func FromNet(r io.Reader) (datatransfer.Message, error) {
-	tm, err := bindnodeRegistry.TypeFromReader(r, &TransferMessage1_1{}, dagcbor.Decode)
+	// a stream may carry several messages back to back: decode one message and
+	// leave the rest of the stream to the next call
+	tm, err := bindnodeRegistry.TypeFromReader(r, &TransferMessage1_1{}, dagcbor.DecodeOptions{AllowLinks: true, DontParseBeyondEnd: true}.Decode)
 	if err != nil {
 		return nil, err
 	}
